@@ -490,3 +490,96 @@ def k5_loop(sr, drv, G, W, U, R, ntrees: int, gen_cases, on_case=None, spec_for=
         finally:
             t.remove()
     sr.distinct += len(seen)
+
+
+# ------------------------------------------------------------------ K6: globmatch / globfilter with REALPATH
+
+def match_expansions(W, U, G, pats, flags: int, exclude):
+    """the expanded lists `_wcparse.compile_pattern` loops over (flags as `globmatch` sees them)"""
+    fl = G._flag_transform(flags)
+    if exclude is not None:
+        fl = W.no_negate_flags(fl)
+    unix = W.is_unix_style(fl)
+
+    def groups(ps):
+        ps = [ps] if isinstance(ps, (str, bytes)) else ps
+        return [list(W.expand(U.norm_pattern(p, not unix, bool(fl & W.RAWCHARS)), fl, 0)) for p in ps]
+
+    def encl(gs):
+        return 'L' + ''.join(','.join(common.enc(x) for x in grp) + ';' for grp in gs)
+    return encl(groups(pats)), ('N' if exclude is None else encl(groups(exclude)))
+
+
+def candidates(t: Tree, results: list[str], R=None) -> list[str]:
+    """every entry of the tree (also through links, two levels), with and without a trailing
+    separator, a few non-existent and absolute spellings, and everything glob returned"""
+    out: list[str] = []
+    seen = set()
+
+    def add(p):
+        if p and p not in seen:
+            seen.add(p)
+            out.append(p)
+    for e in t.entries:
+        add(e)
+        full = os.path.join(t.root, e)
+        if os.path.isdir(full):
+            add(e + '/')
+            if os.path.islink(full):
+                try:
+                    for nm in sorted(os.listdir(full))[:6]:
+                        add(e + '/' + nm)
+                        f2 = os.path.join(full, nm)
+                        if os.path.isdir(f2) and os.path.islink(f2):
+                            for nm2 in sorted(os.listdir(f2))[:3]:
+                                add(e + '/' + nm + '/' + nm2)
+                except OSError:
+                    pass
+    for r in results:
+        add(r)
+        if r.endswith('/') and len(r) > 1:
+            add(r.rstrip('/'))
+    add('nope')
+    add('nope/')
+    if t.entries:
+        add(t.entries[0] + '/nope')
+        add(os.path.join(t.root, t.entries[0]))
+        add('./' + t.entries[0])
+    add('.')
+    add('..')
+    return out
+
+
+def run_real_match(G, t: Tree, cands: list[str], pats, flags: int, exclude=None, api: str = 'globfilter',
+                   mode: str = 'root_dir'):
+    kw = {}
+    fd = None
+    old = os.getcwd()
+    try:
+        if mode == 'root_dir':
+            kw['root_dir'] = t.root
+        elif mode == 'cwd':
+            os.chdir(t.root)
+        elif mode == 'dir_fd':
+            fd = _real_open(t.root, os.O_RDONLY | os.O_DIRECTORY)
+            kw['dir_fd'] = fd
+        if exclude is not None:
+            kw['exclude'] = exclude
+        try:
+            with common.time_limit(10):
+                if api == 'globfilter':
+                    ok = set(G.globfilter(cands, pats, flags=flags, **kw))
+                    return 'ok', ''.join('1' if c in ok else '0' for c in cands)
+                return 'ok', ''.join('1' if G.globmatch(c, pats, flags=flags, **kw) else '0' for c in cands)
+        except common.CallTimeout:
+            return 'timeout', ''
+        except Exception as e:  # noqa: BLE001
+            return 'exc', type(e).__name__ + ': ' + str(e)[:80]
+    finally:
+        os.chdir(old)
+        if fd is not None:
+            os.close(fd)
+
+
+def match_line(t: Tree, flags: int, pe: str, ee: str, cands: list[str]) -> str:
+    return f'matchreal {flags} 0 {t.enc} {t.cwd} {pe} {ee} ' + ' '.join(common.enc(c) for c in cands)
